@@ -751,7 +751,45 @@ def oracle_jobs(ctx):
                 kw.pop('diff_order', None)
                 kw['lam'] = 10.0
             add(name, rng.choice([40, 64]), kw, 'pspline')
+    # G. data kinds: large pedestals (relative to the noise), extreme overall scales, integer counts -- for every
+    #    method that reaches an optionally compiled kernel (see expected_jit_functions in coq/C10/Sites.v) or a solver.
+    #    A fallback that is only algebraically equal to the compiled kernel (e.g. E[x^2] - E[x]^2) cancels here.
+    kinds = ['off1e6', 'off1e8', 'off1e10', 'neg1e7', 'tiny', 'huge', 'integer', 'intoff']
+    for name, kw in KERNEL_METHODS:
+        for kind in (kinds if ctx.tier == 'thorough' else rng.sample(kinds[:4], 2) + rng.sample(kinds[4:], 2) + ['off1e8']):
+            kw2 = dict(base_kw(name))
+            kw2.update(kw)
+            add(name, rng.choice([48, 64]), kw2, f'kind:{kind}', ykind=kind)
+            jobs[-1]['bs_list'] = [2, 4] if name.startswith('pspline') or name in ('mixture_model', 'irsqr', 'mpspline') else [2]
+    for name in ('asls', 'arpls', 'airpls', 'drpls', 'aspls', 'iasls', 'jbcd', 'mpls', 'fabc'):
+        for kind in (kinds if ctx.tier == 'thorough' else rng.sample(kinds, 2)):
+            kw2 = dict(base_kw(name))
+            kw2.update(methods.call_kwargs(name))
+            kw2.update({'max_iter': 2} if 'max_iter' in kw2 or name in LOOPY else {})
+            add(name, rng.choice([40, 64]), kw2, f'kind:{kind}', ykind=kind)
     return jobs
+
+
+# one representative call per optionally compiled kernel (and the spline / beads / loess paths)
+KERNEL_METHODS = [
+    ('std_distribution', {'half_window': 4, 'interp_half_window': 2}),        # _rolling_std, _interp_inplace
+    ('fastchrom', {'half_window': 4, 'interp_half_window': 2}),               # _rolling_std, _interp_inplace
+    ('golotvin', {'half_window': 4, 'sections': 4, 'interp_half_window': 2}), # _interp_inplace
+    ('dietrich', {'poly_order': 2, 'smooth_half_window': 2, 'interp_half_window': 2}),
+    ('cwt_br', {'poly_order': 2, 'scales': [2, 3, 4]}),
+    ('fabc', {'lam': 1e3, 'scale': 3}),
+    ('corner_cutting', {'max_iter': 5}),                                      # _quadratic_bezier(_spline)
+    ('peak_filling', {'half_window': 3, 'sections': 6}),                      # _directional_min_moving_avg
+    ('loess', {'fraction': 0.3, 'max_iter': 2, 'tol': 0.0}),                  # _loess_* , _determine_fits
+    ('loess', {'fraction': 0.3, 'max_iter': 1, 'tol': 0.0, 'delta': 2.0, 'conserve_memory': False}),   # _fill_skips
+    ('beads', {'freq_cutoff': 0.05, 'max_iter': 3, 'tol': 0.0}),              # _numba_banded_dot_banded
+    ('pspline_asls', {'num_knots': 8, 'lam': 10}),                            # _make_design_matrix, _numba_btb_bty
+    ('pspline_arpls', {'num_knots': 8, 'lam': 10, 'spline_degree': 2}),
+    ('mixture_model', {'num_knots': 8, 'lam': 10}),
+    ('irsqr', {'num_knots': 8, 'lam': 10}),
+    ('mpspline', {'half_window': 4, 'num_knots': 8}),
+    ('pspline_mpls', {'half_window': 4, 'num_knots': 8, 'lam': 10}),
+]
 
 
 # Conditioning-scaled tolerance.  The reference worker also runs every job on data perturbed by ~1 ulp
@@ -764,7 +802,7 @@ def oracle_jobs(ctx):
 # problems with s ~ 1e-15.
 FLOOR = {'baseline': 1e-10, 'param': 1e-8}
 GAIN = 5e4
-ILL = 1e-3
+ILL = 0.2
 
 
 def tolerance(job, key='baseline', s=0.0):
@@ -772,7 +810,7 @@ def tolerance(job, key='baseline', s=0.0):
     return max(floor, GAIN * s)
 
 
-def reldev(a, b):
+def reldev(a, b, spread=False):
     a, b = np.array(a, dtype=float), np.array(b, dtype=float)
     if a.shape != b.shape:
         return None
@@ -784,6 +822,12 @@ def reldev(a, b):
     if not fin.any():
         return 0.0
     scale = max(float(np.max(np.abs(a[fin]))), 1e-300)
+    if spread:
+        # relative to the variation of the reference, not to its level: a pedestal of 1e8 must not hide a
+        # change of the size of the peaks
+        ptp = float(np.max(a[fin]) - np.min(a[fin]))
+        if ptp > 0:
+            scale = ptp
     return float(np.max(np.abs(a[fin] - b[fin]))) / scale
 
 
@@ -810,7 +854,7 @@ def compare_oracle(ctx, jobs, results_by_env, enlarged=False):
                 if k == 'n_tol':
                     ill = ill or ref[k] != pert.get(k)
                     continue
-                dv = reldev(ref[k], pert.get(k, []))
+                dv = reldev(ref[k], pert.get(k, []), spread=(k == 'baseline'))
                 sens[k] = max(sens.get(k, 0.0), float('inf') if dv is None else dv)
         ill = ill or any(GAIN * v > ILL for v in sens.values())
         if ill:
@@ -819,11 +863,11 @@ def compare_oracle(ctx, jobs, results_by_env, enlarged=False):
             per = results_by_env[env]['oracle'].get(job['id'])
             if per is None:
                 continue
-            for bs in BS:
+            for bs in job['bs_list']:
                 got = per[str(bs)]
                 if (env, bs) == REF:
                     continue
-                ctx.case(('oracle', job['method'], job['tag'], job['n'], job['seed'], env, bs, json.dumps(job['kw'], sort_keys=True, default=str)),
+                ctx.case(('oracle', job['method'], job['tag'], job['n'], job['seed'], env, bs, job.get('ykind'), json.dumps(job['kw'], sort_keys=True, default=str)),
                          nontrivial='baseline' in ref and not ill, kind=f'oracle:{job["tag"]}:numba={1 - env[0]}:pentapy={1 - env[1]}')
                 case = {'kind': 'oracle', 'job': job, 'block_numba': env[0], 'block_pentapy': env[1], 'bs': bs}
                 if ill:
@@ -849,7 +893,7 @@ def compare_oracle(ctx, jobs, results_by_env, enlarged=False):
                             ctx.fail(key + ':iterations', f'{job["method"]}({job["kw"]}): {ref[k]} recorded iterations in the reference '
                                      f'configuration, {got.get(k)} under bs={bs}, numba blocked={env[0]}, pentapy blocked={env[1]}', case)
                         continue
-                    dev = reldev(ref[k], got.get(k, []))
+                    dev = reldev(ref[k], got.get(k, []), spread=(k == 'baseline'))
                     if dev is None:
                         nfail += 1
                         ctx.fail(key + ':shape', f'{job["method"]}: {k} has a different shape', case)
@@ -861,7 +905,7 @@ def compare_oracle(ctx, jobs, results_by_env, enlarged=False):
                     if dev > this_tol:
                         nfail += 1
                         ctx.fail(key, f'{job["method"]}({job["kw"]}) on n={job["n"]} seed={job["seed"]}: {k} deviates from the reference '
-                                 f'configuration by {dev:.3e} (relative to max |{k}|; allowance {this_tol:.1e} = max(floor, {GAIN:.0f} x the change '
+                                 f'configuration by {dev:.3e} (relative to the spread of the reference baseline, resp. max |param|; allowance {this_tol:.1e} = max(floor, {GAIN:.0f} x the change '
                                  f'{sens.get(k, 0.0):.1e} caused by a 1-ulp perturbation of the data)) under banded_solver={bs}, '
                                  f'numba blocked={env[0]}, pentapy blocked={env[1]}', case)
     ctx.extra['oracle_worst_relative_deviation'] = {k: float(f'{v:.3e}') for k, v in sorted(worst.items())}
@@ -958,8 +1002,8 @@ def replay(rep):
         s = 0.0
         for t in range(3):
             pert = out[0]['oracle'][job['id']].get(f'pert{t}') or {}
-            s = max(s, reldev(ref['baseline'], pert.get('baseline', ref['baseline'])) or 0.0)
-        dev = reldev(ref['baseline'], got['baseline'])
+            s = max(s, reldev(ref['baseline'], pert.get('baseline', ref['baseline']), spread=True) or 0.0)
+        dev = reldev(ref['baseline'], got['baseline'], spread=True)
         tol = tolerance(job, 'baseline', s)
         print(f'replay oracle: relative deviation of the baseline {dev:.3e} (allowance {tol:.1e}, sensitivity {s:.1e})')
         return 1 if (dev is None or (dev > tol and GAIN * s <= ILL)) else 0
